@@ -170,7 +170,28 @@ def run_scenario(sc, observe="all"):
                     for (mid, sel, hc), rc in self._invested.items():
                         if mid == market.market_id:
                             ctx["%s/%s" % (sel, hc)] = {"trades": len(rc.trades), "live": len(rc.live_trades)}
-                    rec.obs.append({"s": self.idx, "cb": cb, "m": market.market_id, "pt": market_book.publish_time_epoch, "orders": snap,
+                    bl = market.blotter
+                    tix = {}
+                    def tname(t):
+                        return tix.setdefault(id(t), len(tix))
+                    cidx = {id(c): i for i, c in enumerate(cls)}
+                    views = {
+                        "orders": [[name_of(o), o.trade.strategy.idx, o.selection_id, cidx.get(id(o.client), -1), tname(o.trade), o.bet_id,
+                                    o.status.value if o.status else None, o.size_matched] for o in bl._orders.values()],
+                        "keys_match": all(k == o.id for k, o in bl._orders.items()),
+                        "strategy": {str(st.idx): [name_of(o) for o in os_] for st, os_ in bl._strategy_orders.items()},
+                        "selection": {"%d/%s" % (k[0].idx, k[1]): [name_of(o) for o in os_] for k, os_ in bl._strategy_selection_orders.items()},
+                        "client": {str(cidx.get(id(c), -1)): [name_of(o) for o in os_] for c, os_ in bl._client_orders.items()},
+                        "client_strategy": {"%d/%d" % (cidx.get(id(k[0]), -1), k[1].idx): [name_of(o) for o in os_] for k, os_ in bl._client_strategy_orders.items()},
+                        "trades": {str(tname(t)): [name_of(o) for o in os_] for t, os_ in bl._trades.items()},
+                        "trade_lookup_ok": all(bl.get_trade(t.id) is t for t in bl._trades),
+                        "bet_lookup": {str(b): name_of(o) for b, o in bl._bet_id_lookup.items()},
+                        "lookups_ok": all(fw.markets.get_order(market.market_id, o.id) is o for o in bl._orders.values()),
+                        "executable": {str(st.idx): [name_of(o) for o in bl.strategy_orders(st, order_status=[OrderStatus.EXECUTABLE])] for st in strategies},
+                        "matched_only": {str(st.idx): [name_of(o) for o in bl.strategy_orders(st, matched_only=True)] for st in strategies},
+                        "complete_and_matched": {str(st.idx): [name_of(o) for o in bl.strategy_orders(st, order_status=[OrderStatus.EXECUTION_COMPLETE, OrderStatus.EXECUTABLE], matched_only=True)] for st in strategies},
+                    }
+                    rec.obs.append({"s": self.idx, "cb": cb, "m": market.market_id, "pt": market_book.publish_time_epoch, "orders": snap, "views": views,
                                     "live": [name_of(o) for o in market.blotter._live_orders], "ctx": ctx,
                                     "tx": [[c.current_transaction_count_total, c.transaction_count_total] for c in cls]})
 
